@@ -19,8 +19,6 @@ def _element_term(it, node, gen, env, x):
     it.assign(gen.target, x, e2)
     st.no_fork += 1
     try:
-        if gen.ifs:
-            raise Unsupported("filtered comprehension over a sequence of unknown length")
         try:
             return it.eval(node.elt, e2)
         except PyRaise:
@@ -39,6 +37,8 @@ def summarise(it, consumer: str, node, env, src):
     x = st.fresh("elem", Val)
     body = _element_term(it, node, gen, env, x)
     i = z3.Int("i!comp")
+    if gen.ifs:
+        return _filtered(it, consumer, node, gen, env, x, body, arr, lo, hi)
     if consumer in ("any", "all"):
         t = it.truthy(body)
         ti = z3.substitute(t, (x, z3.Select(arr, i)))
@@ -66,3 +66,46 @@ def summarise_dict(it, node, env):
         if r is not None:
             return r
     raise Unsupported(f"dict comprehension at line {node.lineno}")
+
+
+def _filtered(it, consumer, node, gen, env, x, body, arr, lo, hi):
+    """[e(x) for x in S if p(x)] over a sequence of unknown length: a fresh list F together with
+    witness functions idx (position in S of the k-th kept element, strictly increasing) and inv
+    (rank of a kept position) - an exact first-order description of filtering."""
+    st = it.st
+    if consumer != "list":
+        raise Unsupported(f"filtered {consumer}(...) comprehension over a sequence of unknown length")
+    e2 = Env(env.module, env)
+    it.assign(gen.target, x, e2)
+    st.no_fork += 1
+    try:
+        conds = [it.truthy(it.eval(c, e2)) for c in gen.ifs]
+    finally:
+        st.no_fork -= 1
+    p = z3.And(conds) if len(conds) > 1 else conds[0]
+    P = lambda t: z3.substitute(p, (x, t))
+    E = lambda t: z3.substitute(body, (x, t))
+    F = st.fresh("filt", V.ArrIV)
+    n = st.fresh("filt_n", I)
+    idx = st.fresh("filt_idx", V.ArrII)
+    inv = st.fresh("filt_inv", V.ArrII)
+    k, k2, i = z3.Ints("k!f k2!f i!f")
+    st.assume(z3.And(n >= 0, n <= hi - lo))
+    from .state import QFact
+    st.assume(QFact(lambda k: z3.Implies(z3.And(0 <= k, k < n),
+                                         z3.And(lo <= z3.Select(idx, k), z3.Select(idx, k) < hi,
+                                                P(z3.Select(arr, z3.Select(idx, k))),
+                                                z3.Select(F, k) == E(z3.Select(arr, z3.Select(idx, k))),
+                                                z3.Select(inv, z3.Select(idx, k)) == k)),
+                    pattern=lambda k: z3.Select(idx, k), name="flt"))
+    st.instantiate_at(z3.IntVal(0))
+    st.instantiate_at(z3.IntVal(1))
+    st.assume(z3.ForAll([k, k2], z3.Implies(z3.And(0 <= k, k < k2, k2 < n), z3.Select(idx, k) < z3.Select(idx, k2)),
+                        patterns=[z3.MultiPattern(z3.Select(idx, k), z3.Select(idx, k2))]))
+    st.assume(QFact(lambda i: z3.Implies(z3.And(lo <= i, i < hi, P(z3.Select(arr, i))),
+                                         z3.And(0 <= z3.Select(inv, i), z3.Select(inv, i) < n,
+                                                z3.Select(idx, z3.Select(inv, i)) == i)),
+                    pattern=lambda i: z3.Select(inv, i), name="fltinv"))
+    out = lib.new_seq_from(it, "list", F, z3.IntVal(0), n)
+    st.ghost.setdefault("$filters", []).append(dict(result=out, F=F, n=n, idx=idx, inv=inv, src=(arr, lo, hi), pred=P))
+    return out
